@@ -259,14 +259,16 @@ Proof.
   assert (T63 : two63 < two64) by (vm_compute; reflexivity).
   assert (T64 : two64 = 2 * two63) by (vm_compute; reflexivity).
   assert (T0 : 0 < two63) by (vm_compute; reflexivity).
+  remember (two64 - a) as na eqn:Ena. remember (two64 - b) as nb eqn:Enb.
   revert E. destruct (N.leb_spec two63 a) as [La|La]; destruct (N.leb_spec two63 b) as [Lb|Lb]; intro E.
-  - apply (f_equal (@tl N)) in E. cbn [tl] in E. rename E into E1. apply (f_equal dec_val) in E1.
-    rewrite (digits_val (two64 - a)), (digits_val (two64 - b)) in E1 by lia. lia.
+  - assert (E1 : digits 10 na = digits 10 nb) by congruence.
+    apply (f_equal dec_val) in E1.
+    rewrite (digits_val na), (digits_val nb) in E1 by lia. lia.
   - exfalso. pose proof (digits_nonempty_head 64 b) as Hh. unfold digits in E.
-    destruct (digits_fuel 65 10 b); [contradiction|]. inversion E; subst. lia.
+    destruct (digits_fuel 65 10 b); [contradiction|]. assert (n = 45) by congruence. lia.
   - exfalso. pose proof (digits_nonempty_head 64 a) as Hh. unfold digits in E.
-    destruct (digits_fuel 65 10 a); [contradiction|]. inversion E; subst. lia.
-  - apply (f_equal dec_val) in E. rewrite !digits_val in E by assumption. exact E.
+    destruct (digits_fuel 65 10 a); [contradiction|]. assert (n = 45) by congruence. lia.
+  - apply (f_equal dec_val) in E. rewrite (digits_val a), (digits_val b) in E by assumption. exact E.
 Qed.
 
 (* ------------------------------------------------------------ msgstorage key shapes *)
@@ -334,7 +336,7 @@ Qed.
 Lemma dotfree_nof21_pair : forall q q', dotfree q = true -> dotfree q' = true -> nof21_pair q q' = true.
 Proof.
   intros q q' H H'. unfold dotfree in *. apply negb_true_iff in H, H'. unfold nof21_pair.
-  destruct (bytes_eqb q q') eqn:E; [reflexivity|]. cbn. apply negb_true_iff.
+  destruct (bytes_eqb q q') eqn:E; [reflexivity|]. cbn [orb]. apply negb_true_iff.
   destruct (is_prefix (msg_prefix_del q) (msg_prefix_del q')) eqn:P; [|reflexivity].
   rewrite !msg_prefix_shape, is_prefix_app_l in P. apply dotfree_prefix_eq in P; try assumption.
   subst. rewrite bytes_eqb_refl in E. discriminate.
